@@ -3,6 +3,16 @@
 every run.  `requires` describe the state the earlier part of the function leaves for the rows of an element that has not been processed yet; they
 are checked on real runs by the bounded DOF-map contracts of C09 / C16 (listed there as the link between the two)."""
 
+
+# contract of the nested helper `find_index` of _compute_p1_dof_map (verified on its own as a function, see contracts/p1_helpers.py; used here at the call site)
+FIND_INDEX = {
+    "args": {"array": ("arr1",), "value": ("int",)},
+    "requires": [],
+    "result": ("int",),
+    "ensures": ["result == -1 or (0 <= result and result < len(array) and array[result] == value)",
+                "forall(0, len(array), lambda i: implies(result == -1 or i < result, array[i] != value))"],
+}
+
 BLOCKS = {
     "_p1_final_block": {
         "function": ("bempp_cl.api.space.scalar_spaces", "_compute_p1_dof_map"),
@@ -36,6 +46,71 @@ BLOCKS = {
             ],
         },
     },
+    "_p1_selection_block": {
+        # one (support element, local vertex) step of the first loop of _compute_p1_dof_map: which slots get a vertex dof, and the extension of the
+        # support beyond the segment (C09: dof <=> vertex of the segment that is interior or include_boundary_dofs; C10: support extension of P1 / DUAL0)
+        "function": ("bempp_cl.api.space.scalar_spaces", "_compute_p1_dof_map"),
+        "loop": ("elements_in_support", 0),
+        "inner": [("range(3)", 0)],
+        "records": ["grid_data"],
+        "callees": {"find_index": FIND_INDEX},
+        "params": ["element_index", "local_index", "grid_data_elements", "grid_data_vertex_on_boundary", "vertex_neighbors", "index_ptr", "support",
+                   "include_boundary_dofs", "truncate_at_segment_edge", "local2global", "vertex_is_dof", "extended_support"],
+        "returns": ["local2global", "vertex_is_dof", "extended_support"],
+        "contract": {
+            "opaque_ok": True,
+            "args": {"element_index": ("int",), "local_index": ("int",), "grid_data_elements": ("arr2", (3, "N")), "grid_data_vertex_on_boundary": ("arr1",),
+                     "vertex_neighbors": ("arr1",), "index_ptr": ("arr1",), "support": ("arr1",), "include_boundary_dofs": ("int",), "truncate_at_segment_edge": ("int",),
+                     "local2global": ("arr2", ("N", 3)), "vertex_is_dof": ("arr1",), "extended_support": ("intlist",)},
+            "requires": [
+                "0 <= element_index and element_index < N and 0 <= local_index and local_index < 3", "len(support) == N",
+                # the loop runs over the elements of the support
+                "support[element_index] != 0",
+                # grid invariants (C11: vertex-neighbour table): vertices in range, CSR offsets monotone and in range, every listed neighbour is an element containing the vertex
+                "len(index_ptr) == len(vertex_is_dof) + 1 and len(grid_data_vertex_on_boundary) == len(vertex_is_dof)",
+                "forall(0, N, lambda e: forall(0, 3, lambda j: 0 <= grid_data_elements[j, e] and grid_data_elements[j, e] < len(vertex_is_dof)))",
+                "forall(0, len(vertex_is_dof), lambda v: 0 <= index_ptr[v] and index_ptr[v] <= index_ptr[v + 1] and index_ptr[v + 1] <= len(vertex_neighbors))",
+                "forall(0, len(vertex_is_dof), lambda v: forall(index_ptr[v], index_ptr[v + 1], lambda i: 0 <= vertex_neighbors[i] and vertex_neighbors[i] < N and "
+                "exists(0, 3, lambda j: grid_data_elements[j, vertex_neighbors[i]] == v)))",
+            ],
+            "loops": {1: {"invariant": [
+                # every non-support neighbour met so far carries the vertex in the slot where the vertex sits in that element
+                "forall(index_ptr[vertex], _ka, lambda i: support[vertex_neighbors[i]] != 0 or exists(0, 3, lambda j: grid_data_elements[j, vertex_neighbors[i]] == vertex and local2global[vertex_neighbors[i], j] == vertex))",
+                # nothing else has changed: entries either keep the value they had when the loop started, or are such slots of non-support elements
+                "forall(0, N, lambda e: forall(0, 3, lambda j: (e == element_index and j == local_index and local2global[e, j] == vertex) or local2global[e, j] == old_local2global[e, j] "
+                "or (support[e] == 0 and grid_data_elements[j, e] == vertex and local2global[e, j] == vertex)))",
+                "local2global[element_index, local_index] == vertex",
+                "forall_any(lambda n: (n in extended_support) == ((n in old_extended_support) or exists(index_ptr[vertex], _ka, lambda i: support[vertex_neighbors[i]] == 0 and vertex_neighbors[i] == n)))",
+            ]}},
+            "result": ("tuple", 3),
+            "ensures": [
+                # C09: the slot of a support element gets the vertex as (pre-)dof exactly if boundary dofs are included or the vertex is interior to the segment:
+                # no non-support element around it and not on the grid boundary; otherwise the slot keeps its value
+                "implies(include_boundary_dofs != 0 or (forall(index_ptr[grid_data_elements[local_index, element_index]], index_ptr[grid_data_elements[local_index, element_index] + 1], "
+                "lambda i: support[vertex_neighbors[i]] != 0) and grid_data_vertex_on_boundary[grid_data_elements[local_index, element_index]] == 0), "
+                "result_0[element_index, local_index] == grid_data_elements[local_index, element_index] and result_1[grid_data_elements[local_index, element_index]] != 0)",
+                "implies(not (include_boundary_dofs != 0 or (forall(index_ptr[grid_data_elements[local_index, element_index]], index_ptr[grid_data_elements[local_index, element_index] + 1], "
+                "lambda i: support[vertex_neighbors[i]] != 0) and grid_data_vertex_on_boundary[grid_data_elements[local_index, element_index]] == 0)), "
+                "result_0[element_index, local_index] == old_local2global[element_index, local_index] and "
+                "result_1[grid_data_elements[local_index, element_index]] == old_vertex_is_dof[grid_data_elements[local_index, element_index]])",
+                # the marker array changes at this vertex only
+                "forall(0, len(vertex_is_dof), lambda v: v == grid_data_elements[local_index, element_index] or result_1[v] == old_vertex_is_dof[v])",
+                # C10 (support extension): without truncation and with boundary dofs every element around the vertex outside the segment carries the vertex in the
+                # slot where the vertex sits in that element, and is recorded for the extended support
+                "implies(truncate_at_segment_edge == 0 and include_boundary_dofs != 0, "
+                "forall(index_ptr[grid_data_elements[local_index, element_index]], index_ptr[grid_data_elements[local_index, element_index] + 1], lambda i: "
+                "support[vertex_neighbors[i]] != 0 or (vertex_neighbors[i] in result_2 and exists(0, 3, lambda j: grid_data_elements[j, vertex_neighbors[i]] == grid_data_elements[local_index, element_index] "
+                "and result_0[vertex_neighbors[i], j] == grid_data_elements[local_index, element_index]))))",
+                # with truncation (or without boundary dofs) nothing outside this slot changes
+                "implies(truncate_at_segment_edge != 0 or include_boundary_dofs == 0, forall(0, N, lambda e: forall(0, 3, lambda j: (e == element_index and j == local_index) "
+                "or result_0[e, j] == old_local2global[e, j])))",
+                "implies(truncate_at_segment_edge != 0 or include_boundary_dofs == 0, forall_any(lambda n: (n in result_2) == (n in old_extended_support)))",
+                # frame in every case: rows of other SUPPORT elements are untouched; slots of non-support elements change only to this vertex, where the element has it
+                "forall(0, N, lambda e: forall(0, 3, lambda j: (e == element_index and j == local_index) or result_0[e, j] == old_local2global[e, j] "
+                "or (support[e] == 0 and grid_data_elements[j, e] == grid_data_elements[local_index, element_index] and result_0[e, j] == grid_data_elements[local_index, element_index])))",
+            ],
+        },
+    },
     "_rwg_final_block": {
         "function": ("bempp_cl.api.space.maxwell_spaces", "_compute_rwg0_space_data"),
         "loop": ("_np.flatnonzero(support)", 1),
@@ -47,6 +122,9 @@ BLOCKS = {
                      "support": ("arr1",), "local_multipliers": ("arr2", ("N", 3)), "local2global_map": ("arr2", ("N", 3))},
             "requires": ["0 <= element_index and element_index < N",
                          "forall(0, 3, lambda j: 0 <= element_edges[j, element_index] and element_edges[j, element_index] < len(edge_dofs))",
+                         # grid invariant (C11: edge-neighbour table in CSR form): offsets monotone and in range
+                         "len(edge_neighbors_ptr) == len(edge_dofs) + 1",
+                         "forall(0, len(edge_dofs), lambda x: 0 <= edge_neighbors_ptr[x] and edge_neighbors_ptr[x] <= edge_neighbors_ptr[x + 1] and edge_neighbors_ptr[x + 1] <= len(edge_neighbors))",
                          # rows of an element not processed yet are still zero (allocated with zeros, flatnonzero lists every element once)
                          "forall(0, 3, lambda j: local_multipliers[element_index, j] == 0)",
                          # the first loop removed elements without any dof from the support
@@ -125,6 +203,9 @@ BLOCKS = {
                      "dof_count": ("int",), "include_boundary_dofs": ("int",), "truncate_at_segment_edge": ("int",)},
             "requires": ["0 <= element and element < N", "len(support) == N", "dof_count >= 0",
                          "forall(0, 3, lambda j: 0 <= element_edges[j, element] and element_edges[j, element] < len(edge_dofs))",
+                         # grid invariant (C11: edge-neighbour table in CSR form): offsets monotone and in range
+                         "len(edge_neighbors_ptr) == len(edge_dofs) + 1",
+                         "forall(0, len(edge_dofs), lambda x: 0 <= edge_neighbors_ptr[x] and edge_neighbors_ptr[x] <= edge_neighbors_ptr[x + 1] and edge_neighbors_ptr[x + 1] <= len(edge_neighbors))",
                          "forall(0, len(edge_dofs), lambda x: edge_dofs[x] >= -1 and edge_dofs[x] < dof_count)"],
             "result": ("tuple", 3),
             "ensures": [
